@@ -179,8 +179,18 @@ def finish(prop, tier, seed, tasks, results, wall, known, extra=None):
             rep = replay_native(search_script, payload, timeout=budget * 4 + 60)
         except Exception as e:  # pragma: no cover
             rep = {"reproduced": None, "error": str(e)}
-        native_search = {"label": "bounded", "budget_s": budget, "scenarios_tried": rep.get("scenarios_tried"),
+        native_search = {"label": "bounded", "script": search_script, "budget_s": budget, "scenarios_tried": rep.get("scenarios_tried"),
                          "reproduced": bool(rep.get("reproduced")), "violated_clause": rep.get("violated_clause")}
+        if stuck and not rep.get("reproduced"):
+            # last resort, only next to an undecided proof: the independent oracle programs stored with the seeded changes of this property
+            try:
+                rep_d = replay_native("demos.py", payload, timeout=900)
+            except Exception as e:  # pragma: no cover
+                rep_d = {"reproduced": None, "error": str(e)}
+            native_search["stored_oracles"] = {"tried": rep_d.get("scenarios_tried"), "reproduced": bool(rep_d.get("reproduced"))}
+            if rep_d.get("reproduced"):
+                rep, search_script = rep_d, "demos.py"
+                native_search.update(reproduced=True, violated_clause=rep_d.get("violated_clause"), script="demos.py")
         if rep.get("reproduced"):
             name = f"native-search/{prop}/{rep.get('violated_clause') or 'property-oracle'}"
             rp = replay_dir / f"{prop}_native-search.json"
